@@ -24,7 +24,7 @@ def frame_component(pid, tier):
     seen = set()
     truncated = []
     for name, pl, maxshort, maxbury in cl._plans(tier):
-        if name not in (("uni", "stub") if quick else ("uni", "close", "mixed", "stub", "two")):
+        if name not in (("uni", "stub", "mixed") if quick else ("uni", "close", "mixed", "stub", "two")):
             continue
         ex = lc.explore(binpath, name, pl, maxshort, maxbury, threads=8, max_states=25000 if quick else 120000)
         truncated += [name] if ex["truncated"] else []
